@@ -257,6 +257,10 @@ def gen_case(rng, steer):
         'beh_seed': rng.getrandbits(32),
         'steer': lk.gen_steer_plan(rng, steer, n_ind),
     }
+    # the last callback is registered while the listener is running (own
+    # generator: the schedules of earlier seeds stay what they were)
+    cfg['late_cb'] = 1 if random.Random(
+        cfg['beh_seed'] ^ 0x5ca1ab1e).random() < 0.35 else 0
     if hang_classes(cfg) and cfg['steer']['mode'] == 'site':
         # no 50-fold repetition of a 300 ms delay in runs that are judged
         # with the short watchdog
@@ -453,8 +457,18 @@ def execute(ctx, cfg, run):
                                           max_ind_queue_size=cfg['max_q'])
     lis.queue_get_timeout = cfg['get_timeout']
     beh = behaviour_of(cfg)
-    for k in range(ncb):
+    late = cfg.get('late_cb', 0)
+    for k in range(ncb - late):
         lis.add_callback(lk.make_callback(log, k, beh))
+
+    def register_late(when):
+        # before any sender of this listener life is started: every
+        # acknowledged indication is owed to all ncb callbacks
+        for k in range(ncb - late, ncb):
+            lis.add_callback(lk.make_callback(log, k, beh))
+        log.add('late-callback', when=when, n=late)
+        ctx.count('callback-registered-' + when)
+    late_pending = late > 0
     stop_raised = False
     stale = run.stale = set(lk.foreign_threads())   # from an earlier case
     if stale:
@@ -472,6 +486,9 @@ def execute(ctx, cfg, run):
             target=sender_main, args=(run, w, s, spec, early),
             name='%ssender-%d-%d' % (lk.HARNESS_THREAD_PREFIX, w, s),
             daemon=True) for s, spec in enumerate(wave['senders'])]
+        if early and late_pending:
+            register_late('before-start')
+            late_pending = False
         if early:
             for t in senders:
                 t.start()
@@ -499,6 +516,10 @@ def execute(ctx, cfg, run):
                     t.join(20)
             if not fault:
                 break
+        if late_pending:
+            register_late('while-running' if started else
+                          'after-failed-start')
+            late_pending = False
         run.phase = 'send'
         if not early:
             for t in senders:
